@@ -81,7 +81,7 @@ def symbols(t):
 _opaque = {}
 
 
-def opaque_fn(key, param_terms, body):
+def opaque_fn(key, param_terms, body, name=''):
     """Named predicate / function: P(params) with the definitional axiom forall params. P(params) == body(params)
     (trigger P(params)).  Large invariant clauses then appear as atoms; they are unfolded only where a proof needs it."""
     if key not in _opaque:
@@ -90,17 +90,17 @@ def opaque_fn(key, param_terms, body):
         qs = [z3.Const('ov!%d_%d' % (k, i), t.sort()) for i, t in enumerate(param_terms)]
         b = z3.substitute(body, *[(t, q) for t, q in zip(param_terms, qs)])
         ax = z3.ForAll(qs, F(*qs) == b, patterns=[F(*qs)]) if qs else (F() == b)
-        _opaque[key] = (F, ax, sym)
+        _opaque[key] = (F, ax, sym, name)
     return _opaque[key][0]
 
 
-def axioms_for(syms):
+def axioms_for(syms, sealed=()):
     """Definitional axioms needed by a VC that mentions the given symbols."""
     out = []
     if 'SumA' in syms: out += SUM_AXIOMS[:3]
     if 'SumR' in syms: out += SUM_AXIOMS[3:]
     for mk, lam, ax, sym in _named.values():
         if sym in syms: out.append(ax)
-    for F, ax, sym in _opaque.values():
-        if sym in syms: out.append(ax)
+    for F, ax, sym, name in _opaque.values():
+        if sym in syms and name not in sealed: out.append(ax)      # sealed: the predicate stays an atom in this function
     return out
